@@ -108,7 +108,7 @@ func (p c14) run(c *core.Ctx) {
 	}
 	// a few cases hold the gates for seconds: Close must keep waiting however long a closer takes
 	hold := time.Duration(0)
-	if c.Index%200 == 199 && gate.expected > 0 {
+	if c.Index%200 == 199 && c.Index < 2000 && gate.expected > 0 {
 		hold = 4 * time.Second
 	}
 	r := world.Build(sc, world.Options{Extra: zero})
